@@ -171,7 +171,7 @@ impl Notify {
         // Notify all waiters, including those not yet enabled
         let waiters = std::mem::take(&mut state.waiters);
         trace!("notify_waiters for {:p} notifying waiters {:?}", self, waiters);
-        state.pending = false;
+        // a permit stored by an earlier notify_one stays stored (tokio::sync::Notify::notify_waiters)
         drop(state);
         // Since we have removed all the waiters, we need to clear all the
         // flags first, before waking any of them.  This is because sending
